@@ -261,13 +261,16 @@ theorem purgeUnrelated_on_bytes {E : Env} {own : Own} (P : PendEnv E own) {bs : 
 /-- the byte-level twins of what filterBlock's first loop (filterTx per transaction) computes on a block: the relevant
     records, or filterTx's error -/
 structure RelOracle (E : Env) (c : Ctx) where
+  /-- the blocks the oracle knows at byte level (Round 7: a model block outside the node's block files has no byte-level
+      twin, so the simulation clauses are restricted to `dom`; `BlkFit` requires it of every block handled) -/
+  dom : Block → Prop
   rel : BStore → List Bytes → Block → M (List RecPair)
   unrel : BStore → List Bytes → Block → List RecPair → List InsPair
-  rel_sim : ∀ bs ready b, CanonS E bs →
+  rel_sim : ∀ bs ready b, dom b → CanonS E bs →
     (rel bs ready b).map (fun l => l.map Prod.snd) = filterTxs c (absStore E bs) (ready.map E.N.wal) b.id b.txs [] 0 []
-  rel_ok : ∀ bs ready b l, CanonS E bs → rel bs ready b = .ok l → ∀ pr ∈ l, pr.OK E
-  unrel_sim : ∀ bs ready b l, (unrel bs ready b l).map Prod.snd = unrelatedTxs b.txs (l.map Prod.snd)
-  unrel_ok : ∀ bs ready b l, ∀ pr ∈ unrel bs ready b l, pr.OK E
+  rel_ok : ∀ bs ready b l, dom b → CanonS E bs → rel bs ready b = .ok l → ∀ pr ∈ l, pr.OK E
+  unrel_sim : ∀ bs ready b l, dom b → (unrel bs ready b l).map Prod.snd = unrelatedTxs b.txs (l.map Prod.snd)
+  unrel_ok : ∀ bs ready b l, dom b → ∀ pr ∈ unrel bs ready b l, pr.OK E
 
 /-- filterBlock after its first loop: onRelevantBlockConnected, RemoveUnminedConflicts, SetSyncedTo -/
 def filterTailB {E : Env} {c : Ctx} (P : PendEnv E c.own) (bs : BStore) (ready : List Bytes) (blk : BlockMetaB)
@@ -350,7 +353,7 @@ theorem filterTail_on_bytes {E : Env} {c : Ctx} (P : PendEnv E c.own) {bs : BSto
       simp [List.map_map, Function.comp]
 
 theorem filterBlock_on_bytes {E : Env} {c : Ctx} (P : PendEnv E c.own) (O : RelOracle E c) {bs : BStore} (hC : CanonS E bs)
-    {ready : List Bytes} {b : Block} {hashB : Bytes} (hh : hashB.length = 32) (hid : E.N.blk hashB = b.id)
+    {ready : List Bytes} {b : Block} (hdom : O.dom b) {hashB : Bytes} (hh : hashB.length = 32) (hid : E.N.blk hashB = b.id)
     (hht : b.height + 1 < collisionHeight) {time8 time4 : Nat} (ht8 : time8 < 256 ^ 8) (ht4 : time4 < 256 ^ 4)
     (hout : FilterOut P O bs ready b hashB time8) :
     (filterBlockB P O bs ready b hashB time8 time4).map (fun x => (absStore E x.1, x.2))
@@ -377,7 +380,7 @@ theorem filterBlock_on_bytes {E : Env} {c : Ctx} (P : PendEnv E c.own) (O : RelO
         rw [hbm] at this
         exact this
       · simp only [hr, Bool.false_eq_true, if_false]
-        have hrs := O.rel_sim bs ready b hC
+        have hrs := O.rel_sim bs ready b hdom hC
         simp only [bind, Except.bind]
         rw [← hrs]
         cases hf : O.rel bs ready b with
@@ -385,8 +388,8 @@ theorem filterBlock_on_bytes {E : Env} {c : Ctx} (P : PendEnv E c.own) (O : RelO
         | ok rel =>
           have ho := hout rel (by simp only [hr, Bool.false_eq_true, if_false]; exact hf)
           have := filterTail_on_bytes P hC (ready := ready) (blk := ⟨b.height, hashB⟩) hh hht ht8 ht4
-            (O.rel_ok bs ready b rel hC hf) (O.unrel_ok bs ready b rel) ho
-          rw [hbm, O.unrel_sim] at this
+            (O.rel_ok bs ready b rel hdom hC hf) (O.unrel_ok bs ready b rel hdom) ho
+          rw [hbm, O.unrel_sim bs ready b rel hdom] at this
           exact this
 
 end MW.LedBytes
